@@ -16,6 +16,7 @@ import (
 	"strings"
 	"sync"
 	"sync/atomic"
+	"syscall"
 	"time"
 
 	"github.com/flamego/flamego"
@@ -177,7 +178,26 @@ type faultyFS struct {
 
 type statFailFile struct{ http.File }
 
-func (statFailFile) Stat() (fs.FileInfo, error) { return nil, errors.New("injected stat failure") }
+func (statFailFile) Stat() (fs.FileInfo, error) { return nil, injectedErr("stat", "stat") }
+
+// injectedErr: the failure a file system reports - a plain error or one of those an operating system gives
+// (permission denied, too many open files, not found, a timeout), chosen by the name. Whatever it is, Static cannot
+// serve the file and says nothing.
+func injectedErr(op, name string) error {
+	switch core.Hash64(op, name) % 6 {
+	case 0:
+		return &fs.PathError{Op: op, Path: name, Err: fs.ErrPermission}
+	case 1:
+		return &fs.PathError{Op: op, Path: name, Err: syscall.EMFILE}
+	case 2:
+		return &fs.PathError{Op: op, Path: name, Err: fs.ErrNotExist}
+	case 3:
+		return fs.ErrPermission
+	case 4:
+		return os.ErrDeadlineExceeded
+	}
+	return errors.New("injected " + op + " failure")
+}
 
 // oversizeFile reports a size larger than what the file holds (as files of sysfs/procfs do, and as any file does
 // that is truncated between Stat and read): what is sent is still what the file holds.
@@ -197,10 +217,10 @@ func (f faultyFS) Open(name string) (http.File, error) {
 	isIndex := isIndexName(path.Clean("/"+name), f.index) // the file the name denotes, however it is spelt
 	switch f.mode {
 	case "open":
-		return nil, errors.New("injected open failure")
+		return nil, injectedErr("open", name)
 	case "index-open":
 		if isIndex {
-			return nil, errors.New("injected open failure")
+			return nil, injectedErr("open", name)
 		}
 	}
 	file, err := f.inner.Open(name)
@@ -891,7 +911,7 @@ func judgeVolatile(w *core.W, fx *fixture, c *volatileCase) {
 }
 
 func runC16(r *core.Run) {
-	r.Rule("fixture tree with unique content per file: inside pub/{a.txt, dir/{index.html,b}, index.html, 'sp ace', ..x, idx2/home.htm, deep/d2/index.html, static/a.txt, s/t/u.txt, noidx/, diridx/index.html/, legacy/ and diridx/ with look-alikes of an index only (index.htm, default.html, INDEX.HTML, index.html.bak, …)} and outside {secret.txt, pubx/leak, pub2/a.txt, index.html, a.txt}; requests: 0-5 segments from a pool with .., ., empty, NUL, backslash, %2e%2e, prefix look-alikes (/staticfoo, /static..), doubled and trailing slashes, a 200-fold ../ run; methods GET/HEAD/others/lower-case/empty; options: Prefix in 8 spellings incl. '/', two segments and doubled slashes, Index default/custom/missing, ETag (+If-None-Match match/other), Expires+CacheControl, FileSystem option, faulty FileSystem (Open/Stat failures, also for the index), Directory left unset (default `public` under the working directory), options passed as a slice that the caller overwrites afterwards; FileSystem as http.Dir or as http.FS(os.DirFS) (a third of the custom-file-system cases); index names with several elements; If-None-Match carrying the tag the middleware's own formula yields for a directory. A second stream (1500/60000 cases) changes the served tree between two requests of one instance: a file is served, revalidated, then removed / replaced by a directory / rewritten, and requested again with the old tag. Oracle: independent outcome function (path.Clean + os.Stat on the fixture) and the universal predicate that no outside-file marker ever appears; silent = no status, no body, no headers and the rest of the chain ran. non-trivial = distinct (option set, method, path class, path)")
+	r.Rule("fixture tree with unique content per file: inside pub/{a.txt, dir/{index.html,b}, index.html, 'sp ace', ..x, idx2/home.htm, deep/d2/index.html, static/a.txt, s/t/u.txt, noidx/, diridx/index.html/, legacy/ and diridx/ with look-alikes of an index only (index.htm, default.html, INDEX.HTML, index.html.bak, …)} and outside {secret.txt, pubx/leak, pub2/a.txt, index.html, a.txt}; requests: 0-5 segments from a pool with .., ., empty, NUL, backslash, %2e%2e, prefix look-alikes (/staticfoo, /static..), doubled and trailing slashes, a 200-fold ../ run; methods GET/HEAD/others/lower-case/empty; options: Prefix in 8 spellings incl. '/', two segments and doubled slashes, Index default/custom/missing, ETag (+If-None-Match match/other), Expires+CacheControl, FileSystem option, faulty FileSystem (Open/Stat failures, also for the index; the errors are plain ones and the ones an operating system gives: permission denied, too many open files, not found, timeout), Directory left unset (default `public` under the working directory), options passed as a slice that the caller overwrites afterwards; FileSystem as http.Dir or as http.FS(os.DirFS) (a third of the custom-file-system cases); index names with several elements; If-None-Match carrying the tag the middleware's own formula yields for a directory. A second stream (1500/60000 cases) changes the served tree between two requests of one instance: a file is served, revalidated, then removed / replaced by a directory / rewritten, and requested again with the old tag. Oracle: independent outcome function (path.Clean + os.Stat on the fixture) and the universal predicate that no outside-file marker ever appears; silent = no status, no body, no headers and the rest of the chain ran. non-trivial = distinct (option set, method, path class, path)")
 	r.Assume("no symlinks inside the served tree (the fixture root holds one, `public` -> `pub`, so that the default Directory can be exercised: the process works inside the fixture root) and no Range / If-Modified-Since requests; for paths with NUL or backslash only the safety predicates are judged (how http.Dir treats odd bytes is net/http's business)")
 	fx := newFixture()
 	defer fx.remove()
